@@ -176,3 +176,23 @@ def check(run, prog, tier):
     others = sorted(writers - {"get_user_command"} - {w for w in writers if any(n.get("fn") == w for b, i, n in guc.calls())})
     run.ob("C12-e", "cursor-writers", not others, "the cursor %s is written only by get_user_command (and helpers it calls): %s" % (cur, sorted(writers)), guc.file, guc.line, "get_user_command",
            what="the round-robin cursor is also moved by %s" % others)
+
+    # ---- C12-f a complete buffered command is never un-announced
+    run.rule("C12-f", "CMD_IN_BUF is cleared only on the word of the buffer scan: every store that removes the bit is on the no-command edge of cmd_in_buf()/first_cmd_in_buf(); otherwise a user whose complete line is still buffered is skipped every cycle until new data arrives", 2)
+    ncl = 0
+    for f in sorted(prog.functions(), key=lambda x: (x.file, x.line)):
+        clears = [(b, i, n) for b, i, n in f.nodes() if n.get("k") == "Asg" and n.get("op") == "&=" and mentions(n["R"], "CMD_IN_BUF") and strip(n["L"]).get("f") == "iflags"]
+        for j, (b, i, n) in enumerate(sorted(clears, key=lambda x: x[2].get("l") or 0)):
+            ncl += 1
+            run.saw(f)
+            ok = False
+            for c, t, B in cfgq.guards(f, b.id):
+                c0, t = normalize_cond(c, t)
+                c0 = strip(c0)
+                if not t and c0.get("k") == "Call" and c0.get("fn") in ("cmd_in_buf", "first_cmd_in_buf"):
+                    ok = True
+                if not t and c0.get("k") == "Ref" and any(n2.get("k") == "Asg" and strip(n2["L"]).get("id") == c0.get("id") and strip(n2["R"]).get("k") == "Call" and strip(n2["R"]).get("fn") in ("first_cmd_in_buf", "cmd_in_buf") for b2, i2, n2 in f.nodes()):
+                    ok = True
+            run.ob("C12-f", "cmd-flag-clear:%s:%s:%d" % (rel(f.file), f.name, j), ok, "CMD_IN_BUF cleared at line %s %s" % (n.get("l"), "because the buffer scan found no complete command" if ok else "without consulting cmd_in_buf()/first_cmd_in_buf(): typed-ahead complete lines stay in the buffer unannounced"),
+                   f.file, n.get("l"), f.name, what="%s clears CMD_IN_BUF without the buffer scan: a user with a complete command waiting is no longer served" % f.name)
+    run.need(ncl >= 2, "stores clearing CMD_IN_BUF (found %d)" % ncl)
